@@ -95,7 +95,7 @@ fn raw_layout<const ALIGN: usize>() {
         assert!(c0 >= base + core::mem::size_of::<UnrestrictedAtomicMgmt>(), "c12: data cell overlaps the management block");
         assert!(c0 + size <= base + total && c1 + size <= base + total, "c12: data cell outside the computed atomic size");
     }
-    kani::cover!(size + align > 12 && mis == 7, "largest value at the worst misalignment");
+    kani::cover!((units == 3 || size + align > 12) && mis == 7, "largest value at the worst misalignment");
     canaries();
 }
 
